@@ -40,7 +40,7 @@ ID = "C15"
 LEVEL = "exploration"
 TIERS = {
     "quick": {"runs": 4000, "wall": 60, "run_timeout": 240, "shrink_s": 40, "valid_draws": 40, "law_draws": 150},
-    "thorough": {"runs": 30000, "wall": 1000, "run_timeout": 400, "shrink_s": 120, "valid_draws": 60, "law_draws": 400},
+    "thorough": {"runs": 110000, "wall": 1000, "run_timeout": 400, "shrink_s": 120, "valid_draws": 60, "law_draws": 400},
 }
 RULE = ("case = seeded regime: custom parameters (2..4 annotators, counts, gaps, durations, 2..4 categories with weights or None; "
         "incl. harsh ones) or parameters measured on a generated regular reference continuum with a ground-truth subset; "
